@@ -123,6 +123,39 @@ Proof.
 Qed.
 Print Assumptions C05_onchain.
 
+(** A channel becomes usable only through an accepted setup: whatever requests were made on
+    the channel id before (refused setups, retries, other commitments), a counterparty
+    signature or an accepted holder commitment belongs to a ready channel whose setup passed
+    validate_setup_channel — under a non-permissive filter: safe type, both delays within
+    policy, shutdown script ours or allowlisted — and the commitment satisfies the bounds
+    computed with that setup. *)
+Theorem C05_usable_only_after_setup :
+  forall prof warn pol oc pre e cs n i,
+    (forall t, warn t = false) ->
+    max_feerate pol < U32MAX -> heights_fit prof pol cs ->
+    let st := lrun est_new prof warn pol oc Stub pre in
+    (snd (lstep est_new prof warn pol oc st (LSignCp e cs n i)) = 0 \/
+     snd (lstep est_new prof warn pol oc st (LValidateHolder e cs n i)) = 0) ->
+    exists s, st = Ready s /\ setup_bound pol s /\ Bounds pol s cs n i.
+Proof.
+  intros prof warn pol oc pre e cs n i Hw Hm Hfit st [H | H];
+    apply accepted_commitment_on_validated_setup in H; destruct H as (s & Hs & Hv & Hc);
+    exists s; (split; [exact Hs|]); (split; [eapply setup_implies_bound; eassumption|]);
+    eapply accept_implies_bounds; eassumption.
+Qed.
+Print Assumptions C05_usable_only_after_setup.
+
+(** a refused setup leaves the stub: the commitment is refused, a good setup still works *)
+Example C05_refused_setup_leaves_stub :
+  let pol := mkPol 144 2016 1000000001 1000 16777216 false 253 25000 in
+  let bad := mkSetup true 1000000000 0 6 144 StaticRemoteKey 0 in
+  let good := mkSetup true 1000000000 0 144 144 StaticRemoteKey 0 in
+  let i := mkInfo true 999999000 0 [] [] 253 in
+  let sign := LSignCp (mkEstate 0 0 0 false None false None) (mkChain 0 0 0) 0 i in
+  ltrace est_new Debug strict pol false Stub [LSetup bad; sign; LSetup bad; LSetup good; sign; LSetup bad]
+  = [2; 2; 2; 0; 0; 2].
+Proof. vm_compute. reflexivity. Qed.
+
 (** Filter semantics: the default filter downgrades nothing; a tag is downgraded only by an
     explicit matching rule with action Warn that no earlier rule pre-empts; rules without
     Warn give the non-permissive filter; an earlier matching Error rule protects a tag. *)
